@@ -22,13 +22,17 @@ func NewFilterHeadersMiddleware(logger logging.Logger, remote *config.Backend) M
 			return nil
 		}
 		nextProxy := next[0]
+		allowed := make(map[string]struct{}, len(remote.HeadersToPass))
+		for _, v := range remote.HeadersToPass {
+			allowed[v] = struct{}{}
+		}
 		return func(ctx context.Context, request *Request) (*Response, error) {
 			if len(request.Headers) == 0 {
 				return nextProxy(ctx, request)
 			}
 			numHeadersToPass := 0
-			for _, v := range remote.HeadersToPass {
-				if _, ok := request.Headers[v]; ok {
+			for k := range request.Headers {
+				if _, ok := allowed[k]; ok {
 					numHeadersToPass++
 				}
 			}
